@@ -58,12 +58,17 @@ def scenarios(rng):
         out.append(('sig_conditional', lambda: ss.sig_constrained_relaxation(f, g, [], X=X, form='dual', p=0, q=1, ell=0), 'sig', f, g, []))
         h = [y[0] * y[1] - 1]
         out.append(('sig_with_equality', lambda: ss.sig_constrained_relaxation(f, g, h, form='dual', p=0, q=1, ell=0), 'sig', f, g, h))
+        # equations only (no inequality at all)
+        f2 = y[0] ** 2 + y[1] ** 2 + 0.5 * y[0] ** -1
+        out.append(('sig_equality_only', lambda: ss.sig_constrained_relaxation(f2, [], h, form='dual', p=0, q=1, ell=0), 'sig', f2, [], h))
         x = so.standard_poly_monomials(2)
         p = (x[0] - 1) ** 2 + (x[1] + 0.5 * rng.choice([1, 2])) ** 2 + x[0] * x[1]
         pg = [4 - x[0] ** 2 - x[1] ** 2]
         out.append(('poly_constrained', lambda: sp.poly_constrained_relaxation(p, pg, [], form='dual', p=0, q=1, ell=0), 'poly', p, pg, []))
         pg2 = [4 - x[0] ** 2 - x[1] ** 2 - x[0] ** 2 * x[1] ** 2, 9 - x[0] ** 2]
         XP = sp.infer_domain(p, pg2, [])
+        ph = [x[0] * x[1] - 0.5]
+        out.append(('poly_equality_only', lambda: sp.poly_constrained_relaxation(p, [], ph, form='dual', p=0, q=1, ell=0), 'poly', p, [], ph))
         out.append(('poly_lifted_domain', lambda: sp.poly_constrained_relaxation(p, pg2, [], XP, form='dual', p=0, q=1, ell=0), 'poly', p, pg2, []))
     return out
 
@@ -94,6 +99,14 @@ def run_one(ctx, name, build, kind, f, gts, eqs, opts):
         return ('%s: solution recovery returned %r instead of a list' % (name, type(sols))), None, {'name': name}
     # oracle on the returned points
     it, et = opts.get('ineq_tol', 1e-8), opts.get('eq_tol', 1e-6)
+    for (x_, gv_, hv_, itl, etl, res_) in log.calls:
+        if itl != it or etl != et:
+            return ('%s: the feasibility test was run with ineq_tol=%r, eq_tol=%r although ineq_tol=%r, eq_tol=%r were requested'
+                    % (name, itl, etl, it, et)), None, {'name': name}
+        if len(gv_) != len(list(gts) + (list(prob.constraints[0].X.gts) if getattr(prob.constraints[0], 'X', None) is not None else [])) \
+                or len(hv_) != len(list(eqs) + (list(prob.constraints[0].X.eqs) if getattr(prob.constraints[0], 'X', None) is not None else [])):
+            return ('%s: the feasibility test saw %d inequality and %d equality functions; the problem (with X) has %d and %d'
+                    % (name, len(gv_), len(hv_), len(gts), len(eqs))), None, {'name': name}
     con = prob.constraints[0]
     Xg = list(con.X.gts) if getattr(con, 'X', None) is not None else []
     Xh = list(con.X.eqs) if getattr(con, 'X', None) is not None else []
@@ -138,7 +151,7 @@ def run_one(ctx, name, build, kind, f, gts, eqs, opts):
 
 def run(ctx):
     cases = []
-    optsets = [{}, {'skip_ls': True}, {'ineq_tol': 1e-6, 'eq_tol': 1e-4}, {'all_signs': False}, {'heuristic_signs': False, 'zero_tol': 1e-12}]
+    optsets = [{}, {'skip_ls': True}, {'ineq_tol': 1e-6, 'eq_tol': 1e-4}, {'ineq_tol': 1e-9, 'eq_tol': 0.25}, {'all_signs': False}, {'heuristic_signs': False, 'zero_tol': 1e-12}]
     for rep in range(ctx.n(1, 6)):
         for name, build, kind, f, gts, eqs in scenarios(ctx.rng):
             for opts in (optsets if rep == 0 else [ctx.rng.choice(optsets)]):
